@@ -53,6 +53,7 @@ aaea8f1:C01
 fc8744a:C17
 5286ef6:C17
 7b7bbd6:C17
+fc8a7a4:C18
 4480891:C04,C01
 d61bc2a:C19
 "
